@@ -708,11 +708,12 @@ bool ReadArrayFromTextStream(Array *array, Stream *stream) {
     if (!(*array)[index].UpdateFromTextStream(stream)) return false;
     ++index;
 
-    // If there is a trailing comma, discard it.
+    // If there is a trailing comma, discard it.  Elements may also be
+    // separated by whitespace alone, which is what WriteArrayToTextStream emits
+    // in multiline mode.
     if (!DiscardWhitespace(stream)) return false;
     if (!stream->Read(&c)) return false;
     if (c != ',') {
-      if (c != '}') return false;
       if (!stream->Unread(c)) return false;
     }
   }
